@@ -312,7 +312,11 @@ impl FactorizedExpandChain {
                         expand = expand.with_tx_context(epoch, self.tx_id);
                     }
 
-                    if let Some(result) = expand.next_factorized()? {
+                    // An expansion that finds no edge adds no level; the chain then has
+                    // no rows at all (keeping the shallower chunk would yield prefix rows).
+                    if let Some(result) = expand.next_factorized()?
+                        && result.level_count() > 1
+                    {
                         self.current_result = Some(result);
                     }
                 }
@@ -321,8 +325,12 @@ impl FactorizedExpandChain {
             // Expand the deepest level of the factorized result
             // This adds a new level without flattening - the key to memory savings
             if let Some(mut factorized) = self.current_result.take() {
+                let levels_before = factorized.level_count();
                 self.expand_deepest_level(&mut factorized, source_column, direction, edge_type)?;
-                self.current_result = Some(factorized);
+                // No new level means no path continues through this hop: the result is empty.
+                if factorized.level_count() > levels_before {
+                    self.current_result = Some(factorized);
+                }
             }
         }
 
